@@ -124,6 +124,9 @@ func goid() uint64 {
 
 // Logf appends a line to the event log (hash always, text when KeepTrace).
 func (w *World) Logf(format string, a ...interface{}) {
+	if w.stopping {
+		return // after Final: tear-down runs unscheduled, its order is not part of the run
+	}
 	s := fmt.Sprintf(format, a...)
 	w.mu.Lock()
 	w.hash = fnv(w.hash, s)
